@@ -123,6 +123,27 @@ func safetyFamily(tier string, amevs []int64) []*Job {
 		jobs = append(jobs, job(scen(fmt.Sprintf("B3-missing-tx-n%d-N4-%s", bk, an), 4, withAMEV(a), withMissing(bk, 101), withK(2)), per))
 		jobs = append(jobs, job(scen(fmt.Sprintf("B4-badtx-n%d-N4-%s", bk, an), 4, withAMEV(a), withBadTx(bk, 101), withK(2)), per))
 	}
+	// B13: one silent validator plus one directed link that loses everything: the nodes on the good side reach the
+	// (pre)commit quorum and lock themselves while the node behind the bad link times out, asks to change view and has
+	// to be rescued by recovery -- the states in which the commit lock and the view-change quorum carry agreement
+	for _, a := range amevs {
+		if a > 0 {
+			continue
+		}
+		for s := 0; s < 4; s++ {
+			for from := 0; from < 4; from++ {
+				for to := 0; to < 4; to++ {
+					if from == to || from == s || to == s {
+						continue
+					}
+					sc := scen(fmt.Sprintf("B13-silent%d-lossy%d>%d-N4-%s", s, from, to, amevName(a)), 4, withAMEV(a), withKind(s, kSilent), withK(2))
+					sc.LossyLinks = [][2]int{{from, to}}
+					sc.FairTimers = true
+					jobs = append(jobs, job(sc, per))
+				}
+			}
+		}
+	}
 	// failing ProcessPreBlock (first call per node fails), anti-MEV on
 	for _, a := range amevs {
 		if a >= 0 {
@@ -191,6 +212,15 @@ func safetyFamily(tier string, amevs []int64) []*Job {
 	jobs = append(jobs, job(scen("B0-two-heights-N4-amev-switch", 4, withAMEV(int64(start+2)), withHeights(2), withK(2)), per))
 	// amnesia restarts
 	jobs = append(jobs, job(scen("B8-amnesia2-N4-amev-off", 4, withKind(2, kAmnesia), withK(2)), per))
+	// the primary of view 0 is silent, the primary of view 1 may restart with empty state (it then meets its own
+	// earlier proposal in the recovery messages of the others)
+	for _, a := range amevs {
+		if a > 0 {
+			continue
+		}
+		p0, p1 := primaryAt(start+1, 0, 4), primaryAt(start+1, 1, 4)
+		jobs = append(jobs, job(scen(fmt.Sprintf("B8-silent%d-amnesia%d-N4-%s", p0, p1, amevName(a)), 4, withAMEV(a), withKind(p0, kSilent), withKind(p1, kAmnesia), withK(2)), per))
+	}
 	if tier == "thorough" {
 		// unbounded: every interleaving of deliveries, N=4 fault-free, one height (state-deduplicated)
 		all := scen("U1-N4-all-delivery-orders", 4, withMode("all"))
